@@ -103,7 +103,11 @@ func H_C07_np_splice() {
 		// sequences of lexer tokens (longer texts than the byte strings below reach): the parser may
 		// give up while the lexer goroutine still has tokens to deliver
 		toks := []string{"${", "}", ":", ":+", ":?", "a", "$$", "."}
-		nt := verif.Choice("ntok", n+2)
+		maxTok := 4
+		if verif.Tier() > 0 {
+			maxTok = 5
+		}
+		nt := verif.Choice("ntok", maxTok+1)
 		for i := 0; i < nt; i++ {
 			s += toks[verif.Choice("tok["+itoa(i)+"]", len(toks))]
 		}
